@@ -37,6 +37,11 @@ KINDS = {
     "varint": (["name", "VarInt"], "unsizable"), "cstring": (["CString", "ascii"], "unsizable"),
     "default": (["Default", B, 7], "fixed"), "padded": (["Padded", 3, B], "fixed"), "flag": (["name", "Flag"], "fixed"),
     "const": (["Const", tag(b"\x7f"), None], "fixed"), "padding": (["Padding", 2], "fixed"),
+    # members of width 0 that look at the stream (their value depends on where they are evaluated)
+    "tell": (["name", "Tell"], "fixed"), "peek": (["Peek", B], "fixed"), "peek16": (["Peek", ["name", "Int16ub"]], "fixed"),
+    # aligned members: payload an exact multiple of the modulus, a non-multiple, and a record
+    "aligned-exact": (["Aligned", 4, ["name", "Int32ub"]], "fixed"), "aligned-rec": (["Aligned", 4, ["Bytes", 8]], "fixed"), "aligned-3of4": (["Aligned", 4, ["Bytes", 3]], "fixed"),
+    "aligned-2of2": (["Aligned", 2, ["name", "Int16ul"]], "fixed"), "alignedstruct": (["AlignedStruct", 2, [["a", B], ["b", ["name", "Int16ub"]]]], "fixed"),
 }
 UNNAMED_OK = ["const", "padding", "byte", "prefixed", "parray", "varint", "bytes3", "prefixed-incl", "parray-varint", "parray-vcount"]
 
@@ -76,6 +81,16 @@ def genval(kind, rng):
         return rng.randrange(256)
     if kind == "flag":
         return rng.random() < 0.5
+    if kind == "aligned-exact":
+        return rng.randrange(1 << 32)
+    if kind == "aligned-rec":
+        return bytes(rng.randrange(256) for _ in range(8))
+    if kind == "aligned-3of4":
+        return bytes(rng.randrange(256) for _ in range(3))
+    if kind == "aligned-2of2":
+        return rng.randrange(65536)
+    if kind == "alignedstruct":
+        return {"a": rng.randrange(256), "b": rng.randrange(65536)}
     return None
 
 
@@ -384,6 +399,13 @@ def case_lazyarray(ctx, case):
         elif k == "iter":
             f = lambda: [v for v in lz]
             want = ev
+        elif k == "iterpart":
+            # an iteration that is abandoned after acc[1] elements (break / any() / next() / zip with a shorter sequence)
+            f = lambda: list(itertools.islice(iter(lz), acc[1]))
+            want = ev[:acc[1]]
+        elif k == "any":
+            f = lambda: any(veq(v, ev[acc[1]]) for v in lz)
+            want = True
         elif k == "len":
             f = lambda: len(lz)
             want = len(ev)
@@ -591,6 +613,8 @@ def run(ctx):
                             hs.append([["index", -1], ["index", 0], ["index", -count], ["index", count - 1]])
                             hs.append([["slice", 1, None, None], ["index", 0], ["slice", None, None, -1], ["slice", 0, count, 2]])
                             hs.append([["index", rng.randrange(count)] for _ in range(4)] + [["iter"]])
+                            hs.append([["iterpart", 1], ["index", count - 1], ["iterpart", max(1, count - 1)], ["iter"]])
+                            hs.append([["any", 0], ["iterpart", 0], ["any", count - 1], ["slice", None, None, None]])
                         hs.append([["iter"], ["len"], ["slice", None, None, None]])
                         for h in hs:
                             run_case(ctx, {"kind": "lazyarray", "member": k, "count": count, "data": tag(buf), "offset": off, "kw": kw, "history": h, "cls": cls,
